@@ -162,6 +162,20 @@ func c19State(name string) *enga.World {
 			}
 		}
 	}
+	if name == "big-batch" {
+		// the largest batches the chain admits: 20 withdrawals being processed by one bitcoin
+		// transaction (finalising it queues 20 paid notices at once, more than two blocks hand over)
+		// and 20 more waiting to be processed
+		for _, b := range []enga.ABlock{
+			{Events: []enga.Event{{Kind: "tx:hashes", N: 2}, {Kind: "req:withdraw", N: 20}}},
+			{Events: []enga.Event{{Kind: "tx:process", N: 20}, {Kind: "req:withdraw", N: 20}}},
+			{Events: []enga.Event{{Kind: "tx:hashes", N: 1}}},
+		} {
+			if rr := w.Run(b); rr.Err != nil {
+				panic(rr.Err)
+			}
+		}
+	}
 	return w
 }
 
@@ -185,6 +199,9 @@ func c19Cases(w *enga.World, state string, thorough bool) []*c19Case {
 	}
 	events := []enga.Event{{Kind: "tx:hashes", N: 2}, {Kind: "tx:deposits", N: 2}, {Kind: "tx:newpubkey"}, {Kind: "tx:process", N: 1}, {Kind: "tx:replace"},
 		{Kind: "tx:finalize"}, {Kind: "tx:approve"}, {Kind: "tx:consolidation"}, {Kind: "tx:newvoter"}, {Kind: "tx:accept"}}
+	if state == "big-batch" {
+		events = append(events, enga.Event{Kind: "tx:process", N: 32})
+	}
 	for _, e := range events {
 		msg, _ := w.BuildMsg(e)
 		if msg == nil {
@@ -193,7 +210,10 @@ func c19Cases(w *enga.World, state string, thorough bool) []*c19Case {
 		bz, err := proto.Marshal(msg.(proto.Message))
 		must(err)
 		url := sdk.MsgTypeURL(msg)
-		cases = append(cases, &c19Case{State: state, Kind: "relayer-tx", Desc: url + " well-formed", tx: c19SignRaw(w, key, 0, url, bz, 0)})
+		cases = append(cases, &c19Case{State: state, Kind: "relayer-tx", Desc: fmt.Sprintf("%s well-formed (%s n=%d)", url, e.Kind, e.N), tx: c19SignRaw(w, key, 0, url, bz, 0)})
+		if state == "big-batch" {
+			continue // this state is about the size of well-formed messages; their mutations are covered in the others
+		}
 		muts := mutateWire(bz, depth, "")
 		for _, m := range muts {
 			cases = append(cases, &c19Case{State: state, Kind: "relayer-tx", Desc: url + " " + m.name, tx: c19SignRaw(w, key, 0, url, m.out, 0)})
@@ -210,6 +230,9 @@ func c19Cases(w *enga.World, state string, thorough bool) []*c19Case {
 				}
 			}
 		}
+	}
+	if state == "big-batch" {
+		return cases
 	}
 	cases = append(cases, c19BitmapCases(w, state, key)...)
 	// raw truncations of a well-formed transaction
@@ -442,16 +465,17 @@ func c19Deliver(w *enga.World, c *c19Case) (class, msg, outcome string) {
 	must(x.N.Commit(blk, txs, fr))
 	idx := len(txs) - 1
 	if fr.TxResults[idx].Code == 0 {
-		if c.Kind == "proposal" {
-			// what an applied proposal (request list) left behind must not stop the blocks after it,
-			// including the one that holds the next relayer election
+		{
+			// what an applied proposal (request list) or transaction left behind (queues of things to
+			// hand over, membership changes) must not stop the blocks after it, including the one that
+			// holds the next relayer election
 			for _, nb := range []enga.ABlock{{Dt: 7}, {Dt: 1}} {
 				var rr *enga.Result
 				if p := guard("follow-up", func() { rr = x.Run(nb) }); p != nil {
-					return "panic-in-block-after-applied-proposal", fmt.Sprint(p), ""
+					return "panic-in-block-after-applied-" + c.Kind, fmt.Sprint(p), ""
 				}
 				if rr.Err != nil {
-					return "block-processing-halts-after-applied-proposal", fmt.Sprintf("%s: %v", rr.Stage, rr.Err), ""
+					return "block-processing-halts-after-applied-" + c.Kind, fmt.Sprintf("%s: %v", rr.Stage, rr.Err), ""
 				}
 			}
 		}
@@ -485,13 +509,13 @@ func C19Worker(state string, from, to int, thorough bool) {
 }
 
 func runC19(r *mc.Run) {
-	r.Rule = "for four reachable states (fresh; right after an election with a proposer that has not accepted yet; busy: voted hashes, deposits, pending/processing/cancelling withdrawals, pending voter; a voter removal already queued): every single wire-level mutation (drop, duplicate, boundary integers, empty / +1 / -1 / bit-flipped / 33-byte / 1-byte strings, recursively two levels deep) of a well-formed instance of every relayer and bridge message, correctly signed so that it reaches the handler; vote bitmaps of every length 0..33; truncations and wire mutations of the raw transaction; wire mutations of the execution-block message and an execution-layer request grammar (malformed items and well-formed membership removals), an applied proposal being followed by the election block and one more; each delivered through CheckTx, ProcessProposal and FinalizeBlock in crash-contained worker processes"
+	r.Rule = "for five reachable states (fresh; right after an election with a proposer that has not accepted yet; busy: voted hashes, deposits, pending/processing/cancelling withdrawals, pending voter; a voter removal already queued; big-batch: 20 withdrawals in one processing batch and 20 more pending, well-formed messages only, incl. a 20-id processing message and the finalisation that queues 20 paid notices): every single wire-level mutation (drop, duplicate, boundary integers, empty / +1 / -1 / bit-flipped / 33-byte / 1-byte strings, recursively two levels deep) of a well-formed instance of every relayer and bridge message, correctly signed so that it reaches the handler; vote bitmaps of every length 0..33; truncations and wire mutations of the raw transaction; wire mutations of the execution-block message and an execution-layer request grammar (malformed items and well-formed membership removals), every applied proposal or transaction being followed by the election block and one more; each delivered through CheckTx, ProcessProposal and FinalizeBlock in crash-contained worker processes"
 	r.Assumptions = []string{"a proposal rejected by ProcessProposal is not forced into FinalizeBlock (honest validators never finalise it; engine verdicts at finalisation are C09's subject)", "account sequences are not part of 'state exactly as it was'"}
 	self, err := os.Executable()
 	must(err)
 	// "elected": right after an election the new proposer has not accepted its role yet - what a
 	// failed transaction of its may leave behind includes that flag
-	states := []string{"fresh", "busy", "removal-queued", "elected"}
+	states := []string{"fresh", "busy", "removal-queued", "elected", "big-batch"}
 	for _, state := range states {
 		w := c19State(state)
 		cases := c19Cases(w, state, r.Thorough())
